@@ -120,6 +120,19 @@ def targeted():
                                          {"op": "block", "txs": [{"id": "t1", "type": "Unbond", "from": "o3", "check": True, "args": {"pub": "v3", "coin": "BIP", "value": "2500u"}}]},
                                          {"op": "block"},
                                          {"op": "block", "absent": ["v4"], "txs": [{"id": "t2", "type": "SetCandidateOff", "from": "o1", "check": True, "args": {"pub": "v1"}}]}, {"op": "skip", "n": 8}])
+    # evidence against v4 around the block in which the genesis fund moving from v4 to v1 falls due (initial height + 9), and against v2 around
+    # the due block of its plain unbonding fund (initial height + 40)
+    for off in (5, 8, 9, 10):
+        sc("evidence-v4-at-%d" % off, [{"op": "skip", "n": off}, {"op": "block", "evidence": ["v4"]}, {"op": "skip", "n": 8}])
+    for off in (39, 40, 41):
+        sc("evidence-v2-at-%d" % off, [{"op": "skip", "n": off, "quiet": True}, {"op": "block", "evidence": ["v2"]}, {"op": "skip", "n": 4}])
+    # a whole stake unbonded / moved away between a recalculation and the next payout (the emptied stake still earns its share)
+    sc("emptied-stake-at-payout", [{"op": "skip", "n": 3},
+                                   {"op": "block", "txs": [{"id": "t1", "type": "Unbond", "from": "a5", "check": True, "args": {"pub": "c5", "coin": "BIP", "value": "1500u"}},
+                                                           {"id": "t2", "type": "Delegate", "from": "a2", "check": True, "args": {"pub": "v1", "coin": "BIP", "value": "500u"}}]},
+                                   {"op": "skip", "n": 6},
+                                   {"op": "block", "txs": [{"id": "t3", "type": "Unbond", "from": "a2", "check": True, "args": {"pub": "v1", "coin": "BIP", "value": "500u"}}]},
+                                   {"op": "skip", "n": 8}])
     # unbond and wait exactly the unbond period
     sc("unbond-period", [{"op": "block", "txs": [{"id": "t1", "type": "Unbond", "from": "o3", "args": {"pub": "v3", "coin": "BIP", "value": "100u"}}]},
                          {"op": "skip", "n": 529, "quiet": True}, {"op": "block"}, {"op": "block"}, {"op": "block"}])
